@@ -48,6 +48,11 @@ type server struct {
 	missFor map[string]bool
 	results []model.ProviderResult
 	// what the handler observed
+	// errVia: how the handler writes an error reply once it has a response
+	// writer: "" on the http.ResponseWriter it was given, "wrapper" with
+	// http.Error on the library's writer (which is an http.ResponseWriter
+	// too), "wrapper-writeheader" with WriteHeader and Write on it
+	errVia   string
 	gotMh    multihash.Multihash
 	gotCid   cid.Cid
 	newErr   error
@@ -77,16 +82,31 @@ func (s *server) ServeHTTP(w http.ResponseWriter, r *http.Request) {
 	if s.missFor[string(rw.Multihash())] {
 		results = nil
 	}
+	ew := w
+	switch s.errVia {
+	case "wrapper":
+		ew = pw
+	case "wrapper-writeheader":
+		ew = headerFirst{pw}
+	}
 	for _, pr := range results {
 		if err := pw.WriteProviderResult(pr); err != nil {
-			writeErr(w, err)
+			writeErr(ew, err)
 			return
 		}
 	}
 	if err := pw.Close(); err != nil {
-		writeErr(w, err)
+		writeErr(ew, err)
 	}
 }
+
+// headerFirst makes http.Error's calls explicit: Header, WriteHeader, Write on
+// the wrapped writer, nothing else.
+type headerFirst struct{ w http.ResponseWriter }
+
+func (h headerFirst) Header() http.Header         { return h.w.Header() }
+func (h headerFirst) WriteHeader(status int)      { h.w.WriteHeader(status) }
+func (h headerFirst) Write(b []byte) (int, error) { return h.w.Write(b) }
 
 func writeErr(w http.ResponseWriter, err error) {
 	var ae *apierror.Error
@@ -366,8 +386,12 @@ func TestCheck(t *testing.T) {
 			}
 		}
 		// (b) raw JSON and NDJSON on the wire, both server preferences
-		for _, pref := range []bool{true, false} {
-			srv.preferJSON = pref
+		for _, pv := range []struct {
+			pref bool
+			via  string
+		}{{true, ""}, {false, ""}, {true, "wrapper"}, {false, "wrapper"}, {false, "wrapper-writeheader"}} {
+			pref := pv.pref
+			srv.preferJSON, srv.errVia = pref, pv.via
 			for _, mode := range []string{"application/json", "application/x-ndjson"} {
 				status, ct, body, err := e.get("/multihash/"+mh.B58String(), []string{mode})
 				if err != nil {
@@ -376,7 +400,11 @@ func TestCheck(t *testing.T) {
 				}
 				if len(l) == 0 {
 					if status != http.StatusNotFound {
-						r.Violation("wire:empty-not-404:"+mode, key, fmt.Sprintf("empty result set answered with status %d body %q", status, body), nil)
+						how := "on the handler's own writer"
+						if pv.via != "" {
+							how = "through the library's response writer (" + pv.via + ")"
+						}
+						r.Violation("wire:empty-not-404:"+mode, key, fmt.Sprintf("empty result set, not-found written %s, answered with status %d body %q", how, status, body), nil)
 					}
 					continue
 				}
@@ -419,6 +447,7 @@ func TestCheck(t *testing.T) {
 				}
 			}
 		}
+		srv.errVia = ""
 		r.Outcome(fmt.Sprintf("readback-%d", len(l)))
 		if len(l) == 2 {
 			r.Sample(map[string]any{"results": names})
